@@ -127,19 +127,38 @@ contract(M + ':Application.release_identity', types={},
 # Coarse frames (enough for C01/C03/C05): the recursive walks up the parent chain only ever
 # write aggregate fields of *buckets* (a parent is a Bucket or the Cell), never a server's
 # capacity/apps nor any application field.
-contract(M + ':Node.children_iter', types={'return': 'List[Node]'},
-         ensures=['forall(lambda j: implies(0 <= j and j < len(result), result[j] in self.children), "Int")',
-                  'forall(lambda j: implies(0 <= j and j < len(self.children) and self.children[j] is not None, '
-                  '       self.children[j] in result), "Int")'],
-         assumed=True, note='generator; eager list of the non-None children (yield not executed symbolically)')
+contract(M + ':Node.children_iter', types={'return': 'List[Node]', '_yielded': 'List[Node]'},
+         ensures=[# the children that are still there (removed children leave a None slot), each one from some slot
+                  'forall(lambda j: implies(0 <= j and j < len(result), '
+                  '       exists(lambda k: 0 <= k and k < len(self.children) and self.children[k] == result[j], "Int")), "Int")',
+                  'forall(lambda k: implies(0 <= k and k < len(self.children) and self.children[k] is not None, '
+                  '       exists(lambda j: 0 <= j and j < len(result) and result[j] == self.children[k], "Int")), "Int")'],
+         props=['C04'])
+invariant(M + ':Node.children_iter', 0, 'for child in self.children',
+          ['len(_yielded) <= _i',
+           'forall(lambda j: implies(0 <= j and j < len(_yielded), '
+           '       exists(lambda k: 0 <= k and k < _i and self.children[k] == _yielded[j], "Int")), "Int")',
+           'forall(lambda k: implies(0 <= k and k < _i and self.children[k] is not None, '
+           '       exists(lambda j: 0 <= j and j < len(_yielded) and _yielded[j] == self.children[k], "Int")), "Int")'])
 
 contract(M + ':Node.increment_affinity', types={'counters': 'Counter[Name]'},
+         requires=[('C04', 'chain_wf(self)')],
          ensures=['implies(cls_is(self, "Server"), forall(lambda x: self.affinity_counters[x] == '
-                  '        old(self.affinity_counters)[x] + counters[x], "Name"))'],
+                  '        old(self.affinity_counters)[x] + counters[x], "Name"))',
+                  # C04: exactly self and its ancestors change, by exactly `counters`
+                  ('C04', 'forall(lambda r, x: implies(r == self or anc(r, self), r.affinity_counters[x] == '
+                          '       old(r.affinity_counters)[x] + counters[x]), "Node", "Name")', 'chain_plus'),
+                  ('C04', 'forall(lambda r: implies(not (r == self or anc(r, self)), '
+                          '       r.affinity_counters == old(r.affinity_counters)), "Node")', 'others_same')],
          modifies=[('Node.affinity_counters', 'lambda r: r == self or is_bucket(r)')], props=['C01', 'C04'])
 contract(M + ':Node.decrement_affinity', types={'counters': 'Counter[Name]'},
+         requires=[('C04', 'chain_wf(self)')],
          ensures=['implies(cls_is(self, "Server"), forall(lambda x: self.affinity_counters[x] == '
-                  '        old(self.affinity_counters)[x] - counters[x], "Name"))'],
+                  '        old(self.affinity_counters)[x] - counters[x], "Name"))',
+                  ('C04', 'forall(lambda r, x: implies(r == self or anc(r, self), r.affinity_counters[x] == '
+                          '       old(r.affinity_counters)[x] - counters[x]), "Node", "Name")', 'chain_minus'),
+                  ('C04', 'forall(lambda r: implies(not (r == self or anc(r, self)), '
+                          '       r.affinity_counters == old(r.affinity_counters)), "Node")', 'others_same')],
          modifies=[('Node.affinity_counters', 'lambda r: r == self or is_bucket(r)')], props=['C01', 'C04'])
 contract(M + ':Bucket.adjust_capacity_up', types={'new_capacity': 'Vec'},
          modifies=[('Node.free_capacity', 'lambda r: is_bucket(r)')], props=['C01'])
@@ -182,7 +201,7 @@ contract(M + ':Server.check_app_lifetime', types={'app': 'Application', 'return'
          modifies=['clock'], props=['C03'])
 
 contract(M + ':Server.put', types={'app': 'Application', 'return': 'Bool'},
-         requires=['inv_server(self)', 'inv_server_aff(self)', 'app.name not in self.apps'],
+         requires=['inv_server(self)', 'inv_server_aff(self)', 'app.name not in self.apps', ('C04', 'tree_wf()')],
          ensures=['inv_server(self)', 'inv_server_aff(self)',
                   # success: exactly this instance is added, its demand is subtracted
                   'implies(result, old(fits_static(self, app)) and app.server == self.name and '
@@ -200,20 +219,33 @@ contract(M + ':Server.put', types={'app': 'Application', 'return': 'Bool'},
                   '        app.placement_expiry == old(app.placement_expiry))',
                   'clock_now() >= old(clock_now())',
                   # C03 lease clause, against the clock at the start of the call (the check reads it later)
-                  'implies(result and app.lease != 0, old(clock_now()) + app.lease < self.valid_until)'],
+                  'implies(result and app.lease != 0, old(clock_now()) + app.lease < self.valid_until)',
+                  # C04: a placement adds one to the affinity's counter of the server and of every ancestor
+                  ('C04', 'implies(result, forall(lambda r, x: implies(r == self or anc(r, self), '
+                          '  r.affinity_counters[x] == old(r.affinity_counters)[x] + '
+                          '  (1 if x == app.affinity.name else 0)), "Node", "Name"))', 'chain_plus'),
+                  ('C04', 'implies(not result, forall(lambda r: r.affinity_counters == old(r.affinity_counters), "Node"))',
+                   'fail_same'),
+                  ('C04', 'forall(lambda r: implies(not (r == self or anc(r, self)), '
+                          '       r.affinity_counters == old(r.affinity_counters)), "Node")', 'others_same')],
          modifies=['clock', 'self.free_capacity', 'self.apps', 'app.server', 'app.placement_expiry',
                    ('Node.affinity_counters', 'lambda r: r == self or is_bucket(r)'),
                    ('Node.free_capacity', 'lambda r: is_bucket(r)')],
          props=['C01', 'C03', 'C04'])
 
 contract(M + ':Server.remove', types={'app_name': 'Name'},
-         requires=['inv_server(self)', 'inv_server_aff(self)', 'app_name in self.apps'],
+         requires=['inv_server(self)', 'inv_server_aff(self)', 'app_name in self.apps', ('C04', 'tree_wf()')],
          ensures=['inv_server(self)', 'inv_server_aff(self)',
                   'self.apps == dict_del(old(self.apps), app_name)',
                   'vec_eq(self.free_capacity, old(self.free_capacity) + old(self.apps[app_name]).demand)',
                   'old(self.apps[app_name]).server is None',
                   'old(self.apps[app_name]).evicted and not old(self.apps[app_name]).unschedule',
-                  'old(self.apps[app_name]).placement_expiry is None'],
+                  'old(self.apps[app_name]).placement_expiry is None',
+                  ('C04', 'forall(lambda r, x: implies(r == self or anc(r, self), '
+                          '  r.affinity_counters[x] == old(r.affinity_counters)[x] - '
+                          '  (1 if x == old(self.apps[app_name]).affinity.name else 0)), "Node", "Name")', 'chain_minus'),
+                  ('C04', 'forall(lambda r: implies(not (r == self or anc(r, self)), '
+                          '       r.affinity_counters == old(r.affinity_counters)), "Node")', 'others_same')],
          modifies=['self.free_capacity', 'self.apps',
                    ('Application.server', 'lambda a: a == old(self.apps[app_name])'),
                    ('Application.evicted', 'lambda a: a == old(self.apps[app_name])'),
@@ -224,8 +256,15 @@ contract(M + ':Server.remove', types={'app_name': 'Name'},
          props=['C01', 'C04'])
 
 contract(M + ':Server.restore', types={'app': 'Application', 'placement_expiry': 'Opt[Real]', 'return': 'Bool'},
-         requires=['inv_server(self)', 'inv_server_aff(self)', 'app.name not in self.apps'],
+         requires=['inv_server(self)', 'inv_server_aff(self)', 'app.name not in self.apps', ('C04', 'tree_wf()')],
          ensures=['inv_server(self)', 'inv_server_aff(self)',
+                  ('C04', 'implies(result, forall(lambda r, x: implies(r == self or anc(r, self), '
+                          '  r.affinity_counters[x] == old(r.affinity_counters)[x] + '
+                          '  (1 if x == app.affinity.name else 0)), "Node", "Name"))', 'chain_plus'),
+                  ('C04', 'implies(not result, forall(lambda r: r.affinity_counters == old(r.affinity_counters), "Node"))',
+                   'fail_same'),
+                  ('C04', 'forall(lambda r: implies(not (r == self or anc(r, self)), '
+                          '       r.affinity_counters == old(r.affinity_counters)), "Node")', 'others_same'),
                   'app.lease == old(app.lease)',
                   'result == old(fits_static(self, app))',
                   'implies(result, app.server == self.name and '
@@ -248,7 +287,7 @@ contract(M + ':Server.renew', types={'app': 'Application', 'return': 'Bool'},
          modifies=['clock', 'app.placement_expiry'], props=['C01', 'C03'])
 
 contract(M + ':Server.remove_all', types={},
-         requires=['inv_server(self)', 'inv_server_aff(self)'],
+         requires=['inv_server(self)', 'inv_server_aff(self)', ('C04', 'tree_wf()')],
          ensures=['inv_server(self)', 'inv_server_aff(self)',
                   'forall(lambda n: n not in self.apps, "Name")'],
          modifies=['self.free_capacity', 'self.apps',
@@ -258,7 +297,7 @@ contract(M + ':Server.remove_all', types={},
                    ('Node.free_capacity', 'lambda r: is_bucket(r)')],
          props=['C01'])
 invariant(M + ':Server.remove_all', 0, 'for appname in list(self.apps)',
-          ['inv_server(self)', 'inv_server_aff(self)',
+          ['inv_server(self)', 'inv_server_aff(self)', ('C04', 'tree_wf()'),
            # keys not yet visited are still present, visited ones are gone, nothing else appeared
            'forall(lambda n: (n in self.apps) == (n in at_loop_entry(self.apps) and '
            '       not _pos(n) < _i), "Name")'])
@@ -300,14 +339,73 @@ contract(M + ':Node.adjust_valid_until', types={'child_valid_until': 'Opt[Real]'
 
 contract(M + ':Node.add_node', types={'node': 'Node'},
          requires=['cls_is(self, "Bucket") or cls_is(self, "Cell")', 'node.parent is None',
-                   'node.name not in self.children_by_name', 'node != self'],
+                   'node.name not in self.children_by_name', 'node != self',
+                   ('C04', 'tree_wf()'), ('C04', 'not anc(node, self)')],
          ensures=['node.parent == self', 'node.name in self.children_by_name and self.children_by_name[node.name] == node',
                   'len(self.children) == old(len(self.children)) + 1 and self.children[len(self.children) - 1] == node',
                   # C03: adding a server to a bucket does not change the partition(s) the server belongs to
-                  ('C02,C03', 'implies(cls_is(node, "Server"), node.labels == old(node.labels))')],
+                  ('C02,C03', 'implies(cls_is(node, "Server"), node.labels == old(node.labels))'),
+                  # C04: the counters of the attached subtree are added to self and to every ancestor, nothing else moves
+                  ('C04', 'forall(lambda r, x: implies(r == self or anc(r, self), r.affinity_counters[x] == '
+                          '       old(r.affinity_counters)[x] + old(node.affinity_counters)[x]), "Node", "Name")', 'attach_plus'),
+                  ('C04', 'forall(lambda r: implies(not (r == self or anc(r, self)), '
+                          '       r.affinity_counters == old(r.affinity_counters)), "Node")', 'others_same')],
          modifies=['node.parent', 'self.children', 'self.children_by_name',
                    ('Node.labels', 'lambda r: r == self or is_bucket(r)'),
                    ('Node.affinity_counters', 'lambda r: r == self or is_bucket(r)'),
                    ('Node.valid_until', 'lambda r: r == self or is_bucket(r)'),
                    ('TraitSet.traits', 'lambda t: True'), ('TraitSet.children_traits', 'lambda t: True')],
-         props=['C02', 'C03'])
+         props=['C02', 'C03', 'C04'])
+
+contract(M + ':Node.remove_child_traits', types={'node_name': 'Name'},
+         modifies=[('TraitSet.traits', 'lambda t: True'), ('TraitSet.children_traits', 'lambda t: True')],
+         assumed=True, note='recursive re-aggregation up the chain; frame only')
+contract(M + ':Node.remove_node', types={'node': 'Node', 'return': 'Node'},
+         requires=['cls_is(self, "Bucket") or cls_is(self, "Cell")', 'node.name in self.children_by_name',
+                   'node.parent == self', ('C04', 'tree_wf()')],
+         ensures=['node.parent is None', 'node.name not in self.children_by_name', 'result == node',
+                  # C04: the counters of the detached subtree are taken off self and every ancestor, nothing else moves
+                  ('C04', 'forall(lambda r, x: implies(r == self or anc(r, self), r.affinity_counters[x] == '
+                          '       old(r.affinity_counters)[x] - old(node.affinity_counters)[x]), "Node", "Name")', 'detach_minus'),
+                  ('C04', 'forall(lambda r: implies(not (r == self or anc(r, self)), '
+                          '       r.affinity_counters == old(r.affinity_counters)), "Node")', 'others_same')],
+         modifies=['node.parent', 'self.children', 'self.children_by_name',
+                   ('Node.affinity_counters', 'lambda r: r == self or is_bucket(r)'),
+                   ('Node.valid_until', 'lambda r: r == self or is_bucket(r)'),
+                   ('TraitSet.traits', 'lambda t: True'), ('TraitSet.children_traits', 'lambda t: True')],
+         props=['C04'])
+invariant(M + ':Node.remove_node', 0, 'for idx in six.moves.xrange(0, len(self.children))',
+          ['len(self.children) == at_loop_entry(len(self.children))'])
+
+RC_SUM = 'sum_range(lambda j, L, y: %s(L[j].affinity_counters)[y], %s, %s, x)'
+contract(M + ':Node.reset_children', types={},
+         requires=['cls_is(self, "Bucket") or cls_is(self, "Cell")', ('C04', 'tree_wf()')],
+         ensures=['len(self.children) == 0',
+                  ('C04', 'forall(lambda j: implies(0 <= j and j < old(len(self.children)) and '
+                          '       old(self.children)[j] is not None, exists(lambda k: 0 <= k and k < len(K) and '
+                          '       K[k] == old(self.children)[j], "Int")), "Int")', 'all_detached'),
+                  ('C04', 'forall(lambda j: implies(0 <= j and j < len(K), K[j].parent is None), "Int")', 'detached'),
+                  # C04: the counters of every detached subtree are taken off self and every ancestor
+                  ('C04', 'forall(lambda r, x: implies(r == self or anc(r, self), r.affinity_counters[x] == '
+                          '       old(r.affinity_counters)[x] - ' + RC_SUM % ('old', 'len(K)', 'K') + '), "Node", "Name")',
+                   'detach_all_minus'),
+                  ('C04', 'forall(lambda r: implies(not (r == self or anc(r, self)), '
+                          '       r.affinity_counters == old(r.affinity_counters)), "Node")', 'others_same')],
+         ghost_out={'K': ('List[Node]', '_seq0')},
+         modifies=[('Node.parent', 'lambda r: r.parent == self'), 'self.children', 'self.children_by_name',
+                   ('Node.affinity_counters', 'lambda r: r == self or is_bucket(r)')],
+         props=['C04'])
+invariant(M + ':Node.reset_children', 0, 'for child in self.children_iter()',
+          [('C04', 'forall(lambda j: implies(0 <= j and j < _n, not (_seq[j] == self or anc(_seq[j], self))), "Int")'),
+           ('C04', 'chain_wf(self)'),
+           ('C04', 'forall(lambda j: implies(0 <= j and j < _i, _seq[j].parent is None), "Int")'),
+           ('C04', 'forall(lambda r, x: implies(r == self or anc(r, self), r.affinity_counters[x] == '
+                   '       at_loop_entry(r.affinity_counters)[x] - ' + RC_SUM % ('at_loop_entry', '_i', '_seq') + '), "Node", "Name")'),
+           ('C04', 'forall(lambda r: implies(not (r == self or anc(r, self)), '
+                   '       r.affinity_counters == at_loop_entry(r.affinity_counters)), "Node")')])
+
+# the walk up the parent chain that guards the two placements that bypass the buckets (eviction, restore);
+# pure: no clause for properties other than C04 (vocabulary in scheduler_c04)
+contract(M + ':Node.check_app_affinity_limit_up', types={'app': 'Application', 'return': 'Bool'},
+         requires=[('C04', 'chain_wf(self)')],
+         ensures=[('C04', 'result == chain_room(self, app)', 'all_levels')], props=['C04'])
